@@ -225,7 +225,8 @@ func checkSpanCallee(c *Ctx, f *ssa.Function) {
 				return []spanState{s}
 			}
 			return []spanState{s}
-		}}
+		},
+		Edge: spanPushFailedEdge}
 	res := a.Run()
 	if len(res.Errs) == 0 {
 		c.ok(rid, key, c.P.pos(f.Pos()), "balanced on all paths (net depth 0, never below entry)")
@@ -385,7 +386,8 @@ func checkSpanLoop(c *Ctx, cl *ConnLoop) {
 				}
 			}
 			return []spanState{s}
-		}}
+		},
+		Edge: spanPushFailedEdge}
 	res := a.Run()
 	// obligations: one per exit (Return) and one per back edge, plus error paths
 	errAt := map[ssa.Instruction][]AutoErr[spanState]{}
@@ -560,4 +562,25 @@ func ruleSpanSlotOwner(c *Ctx, rid string) {
 	if bad == 0 {
 		c.ok(rid, "span-slot-owned-by-loop", "", fmt.Sprintf("%d writers (constructor, SetSpanContext); %d functions reachable from the lifecycle API, none touches the slot", n, nf))
 	}
+}
+
+// spanPushFailedEdge: StartSpan reports whether a span was started; on the branch where the
+// program has tested that result false nothing was pushed (`if conn.StartSpan(n) { defer conn.FinishSpan() }`).
+func spanPushFailedEdge(s spanState, b *ssa.BasicBlock, idx int) (spanState, bool) {
+	for _, at := range edgeOnly(b, idx) {
+		if at.Pos {
+			continue
+		}
+		var call *ssa.Call
+		switch at.Kind {
+		case "call":
+			call = at.Call
+		case "val":
+			call, _ = at.X.(*ssa.Call)
+		}
+		if call != nil && spanEvent(call) == "Push" && s.Depth > 0 {
+			s.Depth--
+		}
+	}
+	return s, true
 }
